@@ -91,6 +91,12 @@ def configs(tier):
         for s in sig[:2]:
             for sk in ('scalar', 'list'):
                 cfgs.append({'kind': 'sepsum', 'f1': f1, 'f2': f2, 'sigma': s, 'sk': sk})
+                if (f1, f2) in (('L1Norm', 'L2NormSquared'), ('IndicatorBox', 'L1Norm')):
+                    # a scaled separable sum: the step (scalar or list) passes through
+                    # FunctionalLeftScalarMult.proximal
+                    for sc in (2, 2.0, 0.5):
+                        cfgs.append({'kind': 'sepsum', 'f1': f1, 'f2': f2, 'sigma': s, 'sk': sk,
+                                     'scale': sc})
                 if f1 == f2:
                     # the documented power form SeparableSum(f, 2): ONE functional object twice
                     cfgs.append({'kind': 'sepsum', 'f1': f1, 'f2': f2, 'sigma': s, 'sk': sk,
@@ -123,6 +129,9 @@ def _site(cfg):
     if k == 'sepsum':
         if cfg.get('same'):
             return 'SeparableSum(%s,2).proximal[sigma=%s]' % (cfg['f1'], cfg['sk'])
+        if cfg.get('scale'):
+            return '(%s*SeparableSum(%s,%s)).proximal[sigma=%s]' % (
+                'int' if isinstance(cfg['scale'], int) else 'float', cfg['f1'], cfg['f2'], cfg['sk'])
         return 'SeparableSum(%s,%s).proximal[sigma=%s]' % (cfg['f1'], cfg['f2'], cfg['sk'])
     if k == 'defaultconj2':
         return '%s.convex_conj.convex_conj(default).proximal[%s]' % (cfg['name'],
@@ -199,6 +208,11 @@ def _build(cfg):
         r1, r2 = s1.ref(i2, s1.opts[0]), s2.ref(i2, s2.opts[0])
         info = _PInfo(f.domain)
         ref = lambda z: DV._add(r1(z[:2]), r2(z[2:]))
+        if cfg.get('scale'):
+            sc = cfg['scale']
+            f = sc * f
+            ref0 = ref
+            ref = lambda z: float(sc) * ref0(z)
         return f, info, ref, [-2.0, 0.0, 0.5, 3.0], 1e-6
     if k == 'defaultconj2':
         from odl.solvers.functional.functional import FunctionalDefaultConvexConjugate
